@@ -10,6 +10,8 @@ import (
 	"fmt"
 	"runtime/debug"
 	"strings"
+	refcbor "verif/lib/ref/cbor"
+	"verif/lib/schemagen"
 
 	"github.com/ipld/go-ipld-prime/codec/dagcbor"
 	"github.com/ipld/go-ipld-prime/codec/dagjson"
@@ -69,7 +71,9 @@ func FeedTyped(proto datamodel.NodePrototype, ts *rs.TypeSystem, t *rs.Type, v m
 }
 
 // HasComplexKeys reports typed maps with non-string key types anywhere below t.
-func HasComplexKeys(ts *rs.TypeSystem, t *rs.Type) bool { return hasComplexKeys(ts, t, map[string]bool{}) }
+func HasComplexKeys(ts *rs.TypeSystem, t *rs.Type) bool {
+	return hasComplexKeys(ts, t, map[string]bool{})
+}
 
 func hasComplexKeys(ts *rs.TypeSystem, t *rs.Type, seen map[string]bool) bool {
 	if t == nil || seen[t.Name] {
@@ -98,6 +102,11 @@ func hasComplexKeys(ts *rs.TypeSystem, t *rs.Type, seen map[string]bool) bool {
 		}
 	}
 	return false
+}
+
+// AssembleTyped assembles type-level input v of type t into na (keys of non-string key types as typed values).
+func AssembleTyped(na datamodel.NodeAssembler, ts *rs.TypeSystem, t *rs.Type, v model.Val) error {
+	return assembleTyped(na, ts, t, v)
 }
 
 func assembleTyped(na datamodel.NodeAssembler, ts *rs.TypeSystem, t *rs.Type, v model.Val) error {
@@ -285,7 +294,9 @@ func CheckViews(rep Reporter, eng Engine, ts *rs.TypeSystem, t *rs.Type, tv mode
 		rep.Count("value_without_representation", 1)
 		return
 	}
-	ctx := func() string { return fmt.Sprintf("engine %s, type %s, value %s", eng.Name(), t.Name, clip(tv.Dump(), 500)) }
+	ctx := func() string {
+		return fmt.Sprintf("engine %s, type %s, value %s", eng.Name(), t.Name, clip(tv.Dump(), 500))
+	}
 	check := func(how string, o Outcome) datamodel.Node {
 		sig := eng.Name() + ":" + t.Kind + reprName(t)
 		if o.Panic != "" {
@@ -647,6 +658,12 @@ func Mutate(r *fw.RNG, v model.Val) Mutation {
 			name = "replace list by scalar"
 			return scalars[r.Intn(len(scalars))]
 		case model.KString:
+			// an enum member written by its other name: the member name where the representation string
+			// belongs and vice versa (schemagen's enums: Alpha↔"a", Beta↔"b")
+			if other, ok := map[string]string{"a": "Alpha", "b": "Beta", "Alpha": "a", "Beta": "b", "Gamma": "Beta"}[x.S]; ok && r.Bool() {
+				name = "enum member by its other name"
+				return model.String(other)
+			}
 			switch r.Intn(5) {
 			case 0:
 				name = "string with extra delimiter part"
@@ -971,5 +988,81 @@ func CheckRejectedKey(rep Reporter, eng Engine, ts *rs.TypeSystem, t *rs.Type, t
 	}
 	if !model.Equal(got, want) {
 		rep.Deviate("C12:typed-map:rejected-key-left-a-trace:"+sig, fmt.Sprintf("after the refusal (at the %s) the finished node reads %s\n%s", stage, clip(got.Dump(), 500), ctx()))
+	}
+}
+
+// MutatedDecodes is C10's monitor for typed targets: byte-level mutations of VALID representations of
+// values of t, decoded with dag-cbor and dag-json into the representation prototype p. Almost-right bytes
+// reach deep into the typed assemblers. A panic in the decode is a violation; a node that was accepted must
+// be readable in full without a panic. (A process-fatal error — stack exhaustion — ends the child; the
+// framework attributes it to the case.)
+func MutatedDecodes(rep Reporter, name string, ts *rs.TypeSystem, t *rs.Type, p datamodel.NodePrototype, rng *fw.RNG, cur *string) {
+	guard := func(sig string, f func()) (panicked bool) {
+		defer func() {
+			if r := recover(); r != nil {
+				panicked = true
+				rep.Deviate(sig+":panic:"+fw.PanicSite(), fmt.Sprintf("panic: %v\n%s\n%s", r, *cur, clip(string(debug.Stack()), 2500)))
+			}
+		}()
+		f()
+		return false
+	}
+	for k := 0; k < 3; k++ {
+		tv := schemagen.GenValue(rng, ts, t, 0)
+		rv, err := ts.ReprOf(t, tv)
+		if err != nil {
+			continue
+		}
+		for _, codec := range []string{"dagcbor", "dagjson"} {
+			var enc []byte
+			if codec == "dagcbor" {
+				enc = refcbor.Encode(rv)
+			} else {
+				var buf bytes.Buffer
+				if dagjson.Encode(fnode.New(rv), &buf) != nil {
+					continue
+				}
+				enc = buf.Bytes()
+			}
+			for m := 0; m < 6 && len(enc) > 0; m++ {
+				in := append([]byte(nil), enc...)
+				for j := 0; j < 1+rng.Intn(2) && len(in) > 0; j++ {
+					pos := rng.Intn(len(in))
+					switch rng.Intn(5) {
+					case 0:
+						in[pos] ^= 1 << rng.Intn(8)
+					case 1:
+						in[pos] = byte(rng.U64())
+					case 2:
+						in = in[:pos]
+					case 3:
+						in[pos]++ // next head / next length: the commonest almost-right byte
+					default:
+						in = append(in[:pos:pos], append([]byte{byte(rng.U64())}, in[pos:]...)...)
+					}
+				}
+				*cur = fmt.Sprintf("%s <- %s %x (valid: %x)", name, codec, clipB(in), clipB(enc))
+				nb := p.NewBuilder()
+				var derr error
+				if guard("C10:decode-typed:"+codec+":"+name, func() {
+					if codec == "dagcbor" {
+						derr = dagcbor.Decode(nb, bytes.NewReader(in))
+					} else {
+						derr = dagjson.Decode(nb, bytes.NewReader(in))
+					}
+				}) {
+					continue
+				}
+				rep.Count("typed_mutation_decodes", 1)
+				if derr == nil {
+					rep.Count("typed_mutation_accepted", 1)
+					guard("C10:read-accepted-typed:"+codec+":"+name, func() {
+						n := nb.Build()
+						obs.ReadOut(n, obs.Options{Typed: true, NoWrongKindProbes: true, Light: true})
+						obs.ReadOut(repr(n), obs.Options{Typed: true, NoWrongKindProbes: true, Light: true})
+					})
+				}
+			}
+		}
 	}
 }
